@@ -140,6 +140,50 @@ def replay_scan(job, obl, inputs, workdir):
     return rc == 1, out
 
 
+REPLAY_FLAG = r'''
+// Native replay for "flags only on evidence": feasible inequality-only systems (acyclic constraint graphs with a known
+// witness) must come back from IncSolver::solve() with NO constraint flagged unsatisfiable and every constraint satisfied.
+#include "libvpsc/solve_VPSC.h"
+#include "libvpsc/variable.h"
+#include "libvpsc/constraint.h"
+#include <cstdio>
+using namespace vpsc;
+static int run(const char *name, int groups, int len, int span) {
+  Variables vs; Constraints cs;
+  for (int g = 0; g < groups; ++g) for (int i = 0; i < len; ++i) vs.push_back(new Variable(g * len + i, 0.0));
+  // v_i + (3s - 0.05 s^2) <= v_j for s = j - i = 1..span : a DAG, satisfied by x_i = 3 i
+  for (int g = 0; g < groups; ++g) for (int i = 0; i < len; ++i) for (int s = 1; s <= span && i + s < len; ++s)
+    cs.push_back(new Constraint(vs[g * len + i], vs[g * len + i + s], 3.0 * s - 0.05 * s * s));
+  int flagged = 0, violated = 0;
+  try {
+    IncSolver solver(vs, cs); solver.solve();
+    for (size_t k = 0; k < cs.size(); ++k) {
+      if (cs[k]->unsatisfiable) flagged++;
+      else if (cs[k]->right->finalPosition - cs[k]->gap - cs[k]->left->finalPosition < -1e-6) violated++;
+    }
+  } catch (...) { printf("%s: exception\n", name); return 0; }
+  if (flagged || violated) printf("%s: %d constraint(s) flagged unsatisfiable and %d violated in a feasible system (%zu variables, %zu constraints)\n", name, flagged, violated, vs.size(), cs.size());
+  return flagged + violated;
+}
+int main() {
+  int bad = 0;
+  bad += run("one chain of 20", 1, 20, 4);
+  bad += run("one group of 100", 1, 100, 10);
+  bad += run("fifty groups of 100", 50, 100, 10);
+  if (bad) { printf("REPRODUCED: feasible constraints were flagged or left violated\n"); return 1; }
+  printf("not reproduced by the replay scenarios\n"); return 0;
+}
+'''
+
+
+def replay_flag(job, obl, inputs, workdir):
+    lib = build_lib("libvpsc", workdir, extra=("-O1",))
+    rc, out = native_run(REPLAY_FLAG, workdir, "replay_flag", extra=["-I", COLA, "-O1"], libs=[lib], timeout=600)
+    if rc is None:
+        return False, out
+    return rc == 1, out
+
+
 def jobs(tier):
     js = []
     pre = prelude("vpsc.h")
@@ -297,6 +341,29 @@ def jobs(tier):
               'extern "C" void w_ctor_body1(void *s, unsigned i) { ((vpsc::Solver *)s)->verif_ctor_body1(i); }\n')
     js.append(Job("Solver_ctor_body1", "U", spec, "h_ctor_body1", cxx=b1_cxx, enforce="w_ctor_body1", defines=["JOB_ctor_body1"], slices=[S["ctor"], cb1],
                   domain="one arbitrary variable of a vector of any length", expect=[r'postcondition', r'assigns']))
+    # ---- IncSolver::satisfy: one iteration of the merge/split loop, callees behind ghost-cell contracts: flags only on evidence
+    hdrm, mb = fragment_loop(S["incsatisfy"], r'while \( \(v = mostViolated\(inactive\)\) &&', "IncSolver::satisfy [merge/split loop body]")
+    mb.text = body_continue_to_return(mb)
+    mtext = subst(mb, [(r'\btry\s*\{', '{', 1),
+                       (r'\}\s*catch\(UnsatisfiableException e\)\s*\{', '} if (verif_split_threw) { UnsatisfiableException e;', 1),
+                       (r'e\.path\.push_back\(v\);', '/* e.path.push_back(v) -- diagnostic path dropped */', 2),   # one of the two hits is inside a commented-out block
+                       (r'\bdelete \(', 'w_delete_block((void *)(', 1), (r'\(lb->deleted\) \? lb : rb\);', '(lb->deleted) ? lb : rb));', 1)])
+    mshims = ('extern "C" { extern bool verif_split_threw; bool w_isActivePath(void *, void *, void *); void *w_splitBetween(void *, void *, void *, void **, void **);\n'
+              'void *w_block_merge(void *, void *, void *); void w_blocks_insert(void *, void *); void w_delete_block(void *); }\n')
+    mdefs = ("Block* Block::merge(Block *b, Constraint *c) { return (Block *)w_block_merge((void *)this, (void *)b, (void *)c); }\n"
+             "bool Block::isActiveDirectedPathBetween(Variable const* u, Variable const* v) const { return w_isActivePath((void *)this, (void *)u, (void *)v); }\n"
+             "Constraint* Block::splitBetween(Variable* vl, Variable* vr, Block* &lb, Block* &rb) { return (Constraint *)w_splitBetween((void *)this, (void *)vl, (void *)vr, (void **)&lb, (void **)&rb); }\n"
+             "void Blocks::insert(Block *block) { w_blocks_insert((void *)this, (void *)block); }\n")
+    m_filled = fill(pre, SHIM_POSITION, SHIM_UPOSITION, SHIM_SLACK, inc_extra="\tvoid verif_merge_body(Constraint *v);\n")
+    m_cxx = (base + EXTERN + mshims + m_filled + S["using"].text + "\nnamespace vpsc {\n" + S["zero"].text + "\n" + mdefs +
+             "void IncSolver::verif_merge_body(Constraint *v)\n{\n" +
+             "".join("    " + d + "\n" for d in scalar_local_decls(S["incsatisfy"], r'while \( \(v = mostViolated\(inactive\)\) &&')) +
+             mtext + "\n}\n}\n"
+             'extern "C" void w_merge_body(void *s, void *v) { ((vpsc::IncSolver *)s)->verif_merge_body((vpsc::Constraint *)v); }\n')
+    js.append(Job("incsatisfy_flag_on_evidence", "U", spec, "h_merge_body", cxx=m_cxx,
+                  defines=["JOB_flag_on_evidence"], slices=[S["incsatisfy"], mb],
+                  domain="every solver/constraint state, every outcome of the callees (cycle found or not, split result null or not, exception or not)",
+                  expect=[r'h_merge_body\.assertion'], replay=replay_flag))
     return js
 
 
